@@ -136,12 +136,17 @@ impl World {
         let node = SimNode::new();
         let db_path = dir.join("teos_db.sql3");
         let dbm = Arc::new(Mutex::new(DBM::new(db_path.clone()).unwrap()));
-        let mut skb = [0x22u8; 32];
-        skb[0] = 1;
+        // (a key whose hex form is all decimal digits would be mangled by the INT affinity of keys.key)
+        let mut skb = [0xabu8; 32];
+        skb[0] = 0x1c;
         let tower_sk = SecretKey::from_slice(&skb).unwrap();
         let tower_pk = PublicKey::from_secret_key(&Secp256k1::new(), &tower_sk);
         let chain: Vec<(u64, Block)> = init_chain.to_vec();
         let height = (chain.len() - 1) as u32;
+        // as teosd does on a fresh data directory: persist the tower key
+        if dbm.lock().unwrap().load_tower_key().is_none() {
+            dbm.lock().unwrap().store_tower_key(&tower_sk).unwrap();
+        }
         let (gatekeeper, watcher, responder, api, reachable) =
             Self::build(cfg, &dbm, &node, &chain, height, tower_sk, tower_pk);
         let rt = tokio::runtime::Builder::new_current_thread().enable_all().build().unwrap();
@@ -220,6 +225,44 @@ impl World {
 
     pub fn height(&self) -> u32 {
         (self.chain.len() - 1) as u32
+    }
+
+    /// Crash + restart: every in-memory object is dropped and rebuilt from the database file the way
+    /// teosd's main() does (tower key from the keys table, components on the last blocks below `tip`).
+    /// `last_blocks` = the blocks of the node's chain ending at the bootstrap tip (oldest first),
+    /// `height` = the tip's height. Returns false if the bootstrap panicked or the tower id changed.
+    pub fn restart(&mut self, last_blocks: &[(u64, Block)], height: u32) -> bool {
+        let db_path = self.dir.join("teos_db.sql3");
+        let r = std::panic::catch_unwind(std::panic::AssertUnwindSafe(|| {
+            let dbm = Arc::new(Mutex::new(DBM::new(db_path.clone()).unwrap()));
+            let (sk, pk) = {
+                let locked = dbm.lock().unwrap();
+                match locked.load_tower_key() {
+                    Some(sk) => (sk, PublicKey::from_secret_key(&Secp256k1::new(), &sk)),
+                    None => {
+                        locked.store_tower_key(&self.tower_sk).unwrap();
+                        (self.tower_sk, PublicKey::from_secret_key(&Secp256k1::new(), &self.tower_sk))
+                    }
+                }
+            };
+            let built = Self::build(self.cfg, &dbm, &self.node, last_blocks, height, sk, pk);
+            (dbm, built, pk)
+        }));
+        match r {
+            Ok((dbm, (gatekeeper, watcher, responder, api, reachable), pk)) => {
+                let same_id = TowerId(pk) == self.tower_id;
+                self.dbm = dbm;
+                self.gatekeeper = gatekeeper;
+                self.watcher = watcher;
+                self.responder = responder;
+                self.api = api;
+                self.reachable = reachable;
+                self.reader = Connection::open_with_flags(&db_path, OpenFlags::SQLITE_OPEN_READ_ONLY).unwrap();
+                self.panicked = false;
+                same_id
+            }
+            Err(_) => false,
+        }
     }
 
     pub fn user(&mut self, uid: u64) -> (SecretKey, PublicKey) {
@@ -619,7 +662,10 @@ impl World {
         for uid in ids {
             let (_, pk) = self.user(uid);
             let req = msgs::GetUserRequest { user_id: pk.serialize().to_vec() };
-            if let Ok(resp) = self.rt.block_on(self.api.get_user(Request::new(req))) {
+            let api = self.api.clone();
+            let rt = &self.rt;
+            let r = std::panic::catch_unwind(std::panic::AssertUnwindSafe(|| rt.block_on(api.get_user(Request::new(req)))));
+            if let Ok(Ok(resp)) = r {
                 let r = resp.into_inner();
                 mem.push((uid, r.available_slots, r.subscription_expiry));
             }
